@@ -960,8 +960,83 @@ static ABI_CONNECTION_TEMPLATES: Mutex<
     Option<HashMap<(TypeId, unsafe extern "C" fn(flag: AbiProtocol)), AbiConnectionTemplate>>,
 > = Mutex::new(None);
 
+#[cfg(not(avl_savefile_verif))]
 struct Guard<'a, K: Hash + Eq, V> {
     guard: MutexGuard<'a, Option<HashMap<K, V>>>,
+}
+
+/// Verification twin of `Guard` (only with `--cfg avl_savefile_verif`): identical, plus a
+/// field dropped *after* the real guard that reports the release to the verification harness.
+#[cfg(avl_savefile_verif)]
+struct Guard<'a, K: Hash + Eq, V> {
+    guard: MutexGuard<'a, Option<HashMap<K, V>>>,
+    _verif_release: verif_hooks::ReleaseNotifier,
+}
+
+/// Hooks for the verification harness in /verif (compiled only with `--cfg avl_savefile_verif`).
+/// With no callbacks installed, every hook is a single relaxed atomic load.
+#[cfg(avl_savefile_verif)]
+#[doc(hidden)]
+pub mod verif_hooks {
+    use std::sync::atomic::{AtomicPtr, Ordering};
+
+    /// Signature of the acquire / release callbacks: the address of the cache mutex.
+    pub type LockCallback = fn(usize);
+
+    static ON_ACQUIRE: AtomicPtr<()> = AtomicPtr::new(std::ptr::null_mut());
+    static ON_RELEASE: AtomicPtr<()> = AtomicPtr::new(std::ptr::null_mut());
+
+    /// Install (or with `None` remove) the callbacks invoked before a cache mutex is locked and
+    /// after it has been unlocked.
+    pub fn set_lock_callbacks(on_acquire: Option<LockCallback>, on_release: Option<LockCallback>) {
+        ON_ACQUIRE.store(on_acquire.map(|f| f as *mut ()).unwrap_or(std::ptr::null_mut()), Ordering::SeqCst);
+        ON_RELEASE.store(on_release.map(|f| f as *mut ()).unwrap_or(std::ptr::null_mut()), Ordering::SeqCst);
+    }
+
+    fn call(slot: &AtomicPtr<()>, addr: usize) {
+        let p = slot.load(Ordering::Relaxed);
+        if !p.is_null() {
+            let f: LockCallback = unsafe { std::mem::transmute(p) };
+            f(addr);
+        }
+    }
+    pub(crate) fn acquire(addr: usize) {
+        call(&ON_ACQUIRE, addr)
+    }
+
+    pub(crate) struct ReleaseNotifier(pub(crate) usize);
+    impl Drop for ReleaseNotifier {
+        fn drop(&mut self) {
+            call(&ON_RELEASE, self.0)
+        }
+    }
+
+    /// Addresses of the three cache mutexes: library cache, entry cache, connection templates.
+    pub fn cache_addresses() -> [usize; 3] {
+        [
+            &super::LIBRARY_CACHE as *const _ as usize,
+            &super::ENTRY_CACHE as *const _ as usize,
+            &super::ABI_CONNECTION_TEMPLATES as *const _ as usize,
+        ]
+    }
+
+    /// Forget everything cached, so that the next connection is a first use again.
+    /// Loaded libraries are leaked (never unloaded), function pointers obtained earlier stay valid.
+    pub fn reset_caches() {
+        if let Ok(mut g) = super::ENTRY_CACHE.lock() {
+            *g = None;
+        }
+        if let Ok(mut g) = super::ABI_CONNECTION_TEMPLATES.lock() {
+            *g = None;
+        }
+        if let Ok(mut g) = super::LIBRARY_CACHE.lock() {
+            if let Some(m) = g.take() {
+                for (_, lib) in m {
+                    std::mem::forget(lib);
+                }
+            }
+        }
+    }
 }
 
 impl<K: Hash + Eq, V> std::ops::Deref for Guard<'_, K, V> {
@@ -978,6 +1053,7 @@ impl<K: Hash + Eq, V> std::ops::DerefMut for Guard<'_, K, V> {
 }
 
 // Avoid taking a dependency on OnceCell or lazy_static or something, just for this little thing
+#[cfg(not(avl_savefile_verif))]
 impl<'a, K: Hash + Eq, V> Guard<'a, K, V> {
     pub fn lock(map: &'a Mutex<Option<HashMap<K /*filename*/, V>>>) -> Guard<'a, K, V> {
         let mut guard = map.lock().unwrap();
@@ -985,6 +1061,22 @@ impl<'a, K: Hash + Eq, V> Guard<'a, K, V> {
             *guard = Some(HashMap::new());
         }
         Guard { guard }
+    }
+}
+
+#[cfg(avl_savefile_verif)]
+impl<'a, K: Hash + Eq, V> Guard<'a, K, V> {
+    pub fn lock(map: &'a Mutex<Option<HashMap<K /*filename*/, V>>>) -> Guard<'a, K, V> {
+        let addr = map as *const _ as usize;
+        verif_hooks::acquire(addr);
+        let mut guard = map.lock().unwrap();
+        if guard.is_none() {
+            *guard = Some(HashMap::new());
+        }
+        Guard {
+            guard,
+            _verif_release: verif_hooks::ReleaseNotifier(addr),
+        }
     }
 }
 
